@@ -3,13 +3,17 @@ import Lc3V.Driver.Util
 import Lc3V.Driver.Offset
 import Lc3V.Driver.Word
 import Lc3V.Driver.Instr
+import Lc3V.Driver.Sim
 open Lc3V Lc3V.Driver
 
 structure DState where
-  dummy : Unit := ()
+  sim : Option SimCtx := none
 
 def step (st : DState) (line : String) : DState × String :=
-  match line.trimAscii.toString.splitOn " " with
+  let l := line.trimAscii.toString
+  match l.splitOn " " with
+  | "case" :: _ => (st, l)
+  | "sim" :: args => let (s', out) := cmdSim st.sim args; ({ st with sim := s' }, out)
   | "off" :: args  => (st, cmdOff false args)
   | "offt" :: args => (st, cmdOff true args)
   | "wop" :: args => (st, cmdWop args)
